@@ -3,6 +3,7 @@ import Ypv.Lemmas.EvalKwLoc
 import Ypv.Lemmas.WriteSim
 import Ypv.Lemmas.PathResolve
 import Ypv.Lemmas.PathPop
+import Ypv.Lemmas.PathDecode
 /-!
 # C02 — every result locates its node
 
@@ -284,6 +285,29 @@ theorem path_reresolves_query {d : Node} (hd : d.WF) (hc : W1.docClear d = true)
     ⟨(path_reresolves hd hc hl hok hal mt' dsc').2, fun f => path_reresolves_as f hd hc hl hok hal mt' dsc'⟩⟩
 
 open Ypv.Acc in
+/-- **path_reresolves with hypotheses on the reported coordinates alone.**  `Sec.ofText` reads the step
+back from a section text (`ofText_mtext`), so the excluded classes are decidable predicates of the
+result `(n, c)` and the document: every real result of a query on a well-formed document without twin
+keys whose path sections denote expressible steps, each named anchor borne by one sibling only, reports
+a path whose `str()` — as it is, and in either notation after the separator was set — parses and
+evaluates, from the root, to exactly that node at its address. -/
+theorem path_reresolves_result {d : Node} (hd : d.WF) (hc : W1.docClear d = true) (segs : List ESeg)
+    (hk : ∀ s ∈ segs, plainKind s = true) (n : Node) (c : Ctx)
+    (h : Res.real (n, c) ∈ (required mt dsc rt segs (.real (d, Ctx.root))).1)
+    (hok : (c.path.map Sec.ofText).all Sec.ok = true)
+    (hal : aloneAlong d c.addr (c.path.map Sec.ofText) = true) (mt' : Matcher) (dsc' : Desc) :
+    (∃ S sg c', reported c = .ok S ∧ parse true S = .ok sg ∧
+      required mt' dsc' d (sg.map ESeg.ofSeg) (.real (d, Ctx.root)) = Gen.one (.real (n, c')) ∧
+      c'.addr = c.addr) ∧
+    ∀ f : Bool, ∃ S sg c', reportedAs f c = .ok S ∧ parse true S = .ok sg ∧
+      required mt' dsc' d (sg.map ESeg.ofSeg) (.real (d, Ctx.root)) = Gen.one (.real (n, c')) ∧
+      c'.addr = c.addr := by
+  obtain ⟨ss, h1, _, h3⟩ := path_reresolves_query (mt := mt) (dsc := dsc) (rt := rt) hd hc segs hk n c h
+  have hss : c.path.map Sec.ofText = ss := by rw [h1, ofText_map]
+  rw [hss] at hok hal
+  exact h3 hok hal mt' dsc'
+
+open Ypv.Acc in
 /-- **`[parent()]` and the reported path — C02-K5 as an explicit hypothesis.**  The evaluator model's
 `ctxUp c 1` (what `KeywordSearches.parent` leaves) drops the last path section; the library pops it
 with `YAMLPath.pop()`.  For coordinates whose sections are those of the steps `s0 :: r ++ [s]` (all
@@ -317,11 +341,11 @@ def lst : Node := .seq none [.scalar none (.int 1), inner]
 def doc : Node := .map none [(.str "a.b [c]".toList, lst)]
 def ss : List Sec := [.key "a.b [c]".toList, .anc ['x'], .key "/k".toList]
 def c1 : Ctx := Ctx.root.child (.key (.str "a.b [c]".toList)) (.key (.str "a.b [c]".toList)) (Sec.key "a.b [c]".toList).mtext
-def c2 : Ctx := c1.child (.idx 1) (.idx (-1)) (Sec.anc ['x']).mtext
+def c2 : Ctx := c1.child (.idx 1) (.idx 1) (Sec.anc ['x']).mtext
 def c3 : Ctx := c2.child (.key (.str "/k".toList)) (.key (.str "/k".toList)) (Sec.key "/k".toList).mtext
 
-/-- a located result three steps deep: a key full of punctuation, an anchored element reported under
-the index `-1` and named by its anchor, a key starting with `/` -/
+/-- a located result three steps deep: a key full of punctuation, an anchored element named
+by its anchor, a key starting with `/` -/
 theorem located : LocP doc (.scalar none (.int 2)) c3 ss :=
   LocP.child (ss := [.key "a.b [c]".toList, .anc ['x']]) _ _ (.key "/k".toList) _
     (LocP.child (ss := [.key "a.b [c]".toList]) _ _ (.anc ['x']) inner
@@ -336,6 +360,13 @@ example : W1.docClear doc = true := by decide +kernel
 /-- what `str(result.path)` is for it, and after `separator = FSLASH` -/
 example : reported c3 = .ok "a\\.b\\ \\[c\\][&x].\\/k".toList := by decide +kernel
 example : reportedAs true c3 = .ok "/a\\.b\\ \\[c\\][&x]/\\/k".toList := by decide +kernel
+
+/-- the hypotheses of `path_reresolves_result` are computed from the coordinates -/
+example : c3.path.map Sec.ofText = ss := by decide +kernel
+/-- … and the coordinates are those of a query result -/
+example : Res.real (.scalar none (.int 2), c3) ∈
+    (required (fun _ _ _ => .ok true) Desc.none doc [.key "a.b [c]".toList, .anchor ['x'], .key "/k".toList]
+      (.real (doc, Ctx.root))).1 := by decide +kernel
 
 /-- **C07-K6**: two adjacent backslashes — the library's `escape_path_section` copies the pair, the
 section reads back as the key `a\b`; excluded by `Sec.ok`. -/
